@@ -63,10 +63,40 @@ PROPS = {
         'units': [
             {'engine': 'verus', 'name': 'batcher', 'tier': 'quick', 'role': 'enqueue flushes on full batch / expired delay; view independent of batch mode'},
             {'engine': 'verus', 'name': 'end_next', 'tier': 'quick', 'role': 'FlushBatch / FlushAndRestart flush every batcher; Terminate ends every batcher'},
+            {'engine': 'verus', 'name': 'start_next', 'tier': 'quick', 'exclude_obligations': ['start.progress_on_replica_end'], 'role': 'a receive timeout is turned into FlushBatch (and only then)'},
         ],
         'explanation': 'no-withholding safety: after End::next returns FlushBatch or FlushAndRestart no batcher has pending elements; adaptive/fixed batchers '
                        'flush when full or when the delay expired (clock = any value); the delivered sequence is the same for every batch mode. '
                        'The wall-clock bound itself is NOT decided (liveness/timing).',
         'assumptions': ['wall-clock bound and thread scheduling are out of reach of this technique'],
+    },
+    'C05': {
+        'level': 'proof',
+        'units': [
+            {'engine': 'verus', 'name': 'start_next', 'tier': 'quick', 'exclude_obligations': ['start.progress_on_replica_end'], 'role': 'Start::next: Terminate / FlushAndRestart accounting, absorbed control elements, per-iteration reset'},
+        ],
+        'explanation': 'Verus proof of the per-call contract of Start::next (any number of upstream replicas, any batches): FlushAndRestart is returned exactly when every '
+                       'upstream FlushAndRestart of the iteration was consumed (and the per-iteration state restarts), Terminate exactly when every upstream Terminate was consumed, '
+                       'and then forever; only control elements are absorbed. Stateful operators (folds, joins, windows, reorder, zip) are added as further units.',
+        'assumptions': ['termination of next() (it blocks on the network) is not verified', 'Replay/Iterate/IterationLeader as grammar transducers are not covered'],
+    },
+    'C16': {
+        'level': 'proof',
+        'units': [
+            {'engine': 'verus', 'name': 'batcher', 'tier': 'quick', 'role': 'batches are sent whole and in order'},
+            {'engine': 'verus', 'name': 'start_next', 'tier': 'quick', 'exclude_obligations': ['start.progress_on_replica_end'], 'role': 'old.unread ++ received == taken ++ new.unread; data returned unchanged in pull order'},
+            {'engine': 'verus', 'name': 'end_next', 'tier': 'quick', 'role': 'one sender per group: every element is appended to that sender in arrival order'},
+        ],
+        'explanation': 'order preservation along a single-replica path: Batcher view equation (Verus), Start::next stream equation (nothing lost, duplicated or reordered between link and chain), End::next appends in arrival order.',
+        'assumptions': ['reorder() and sinks/sources: see unit list'],
+    },
+    'C17': {
+        'level': 'proof',
+        'units': [
+            {'engine': 'verus', 'name': 'start_next', 'tier': 'quick', 'role': 'a pulled watermark that advances the frontier is forwarded at once; no silent frontier progress (KNOWN-FINDING on the FlushAndRestart arm)'},
+        ],
+        'explanation': 'Start::next returns Watermark(new frontier) immediately when a pulled watermark advances the frontier (O2) and never lets the frontier advance silently; '
+                       'the obligation fails on the FlushAndRestart arm (update(sender, MAX) result discarded) which is the recorded known finding F1.',
+        'assumptions': ['WatermarkFrontier::update contract (unit frontier)'],
     },
 }
